@@ -1,7 +1,9 @@
-(* run: annotated program -> IR produced by Lang.Transl.transl (or rejection).
+(* run: annotated program -> IR produced by Lang.Transl.transl (or rejection);
+   with tag 1: annotated program + its expressions -> guard flag and both execution traces.
    Encoding documented in harness/props/c01_stmt.py. *)
 From Coq Require Import ZArith List Bool.
 From RV Require Import Base.Wire Base.Text Lang.StmtAst Lang.Transl.
+From RV Require Import Lang.PyAst Lang.PySem Lang.PyAstWire Lang.StmtSem Lang.StmtGuard Lang.StmtExec.
 Import ListNotations.
 Open Scope Z_scope.
 
@@ -93,8 +95,43 @@ Fixpoint enc_node (n : cnode) : wv :=
 
 Definition enc_gdecl (g : gdecl) : wv := WL [wtext (g_name g); enc_ty (g_ty g); enc_cexpr (g_init g)].
 
+Fixpoint dec_exprs (l : list wv) : option (list pexpr) :=
+  match l with
+  | [] => Some []
+  | x :: r => match dec_expr x, dec_exprs r with Some e, Some es => Some (e :: es) | _, _ => None end
+  end.
+
+Definition enc_ev (e : ev) : wv :=
+  match e with
+  | EvSer v => WL [WI 0; enc_val (to_pval v)]
+  | EvDelay v => WL [WI 1; enc_val (to_pval v)]
+  | EvX id v => WL [WI 2; WI id; enc_val (to_pval v)]
+  end.
+Definition enc_trace (r : option (list ev)) : wv :=
+  match r with Some tr => WL [WI 1; WL (map enc_ev tr)] | None => WL [WI 0] end.
+
+Definition dec_prog (pre : list wv) (mainopt : list wv) : option pprog :=
+  match dec_stmts pre,
+        match mainopt with
+        | [] => Some None
+        | [WL b] => option_map Some (dec_stmts b)
+        | _ => None end with
+  | Some p, Some m => Some {| p_pre := p; p_main := m |}
+  | _, _ => None
+  end.
+
+Definition run_exec (pre mainopt exprs : list wv) (n fuel : Z) : wv :=
+  match dec_prog pre mainopt, dec_exprs exprs with
+  | Some p, Some es =>
+      let '(g, py, c) := exec_both p es (Z.to_nat n) (Z.to_nat fuel) in
+      WL [WI 0; wbool g; enc_trace py;
+          match c with None => WL [WI 2] | Some r => enc_trace r end]
+  | _, _ => wbad
+  end.
+
 Definition run (v : wv) : wv :=
   match v with
+  | WL [WI 1; WL pre; WL mainopt; WL exprs; WI n; WI fuel] => run_exec pre mainopt exprs n fuel
   | WL [WL pre; WL mainopt] =>
       match dec_stmts pre,
             match mainopt with
